@@ -111,5 +111,33 @@ fn main() {
             }
         }
     }
+    // ---- astronomically large windows ("all windows >= 1"): for every function whose result does not depend on the window
+    // once it covers the whole series, w in {2^40, usize::MAX / 2, usize::MAX - 1, usize::MAX} with an explicit min_periods
+    // must behave exactly like w = len + 1 (same mask, same length, no panic, no attempt to allocate `window` elements).
+    // The model is evaluated at w = len + 1 (a unary nat of size 2^40 cannot be written in Coq).
+    for si in 0..(if thorough { 24 } else { 8 }) {
+        let len = match si { 0 => 0, 1 => 1, _ => rng.range(2, 9) as usize };
+        let (xs, pat) = series(&mut rng, len, si % 2 == 0);
+        let (ys, _) = series(&mut rng, len, si % 2 == 0);
+        let mp = Some(rng.range(0, len as i64 + 1) as usize);
+        for wh in [1usize << 40, usize::MAX / 2, usize::MAX - 1, usize::MAX] {
+            let a_model = CallArgs { w: len + 1, mp, pct: false, rev: false, d: 0.5, xs: &xs, ys: &ys };
+            let a = CallArgs { w: wh, mp, pct: false, rev: false, d: 0.5, xs: &xs, ys: &ys };
+            for (fi, f) in RFNS.iter().enumerate() {
+                // ewm / wma weights and the fractional-difference table depend on the window itself
+                if !matches!(f.kind, Kind::One | Kind::Rank | Kind::Two) || f.name.contains("ewm") || f.name.contains("wma") { continue; }
+                let tags = |be: &str| format!("fn={} be={} len={} wrel=huge mp=mid nulls={}{}", f.name, be, len.min(12), pat, if len == 0 { " nt=0" } else { "" });
+                let desc = |be: &str| format!("fn={} be={} w={} (model at w=len+1) mp={:?} xs={:?} ys={:?}", f.name, be, wh, mp, xs, ys);
+                em.case("custom:mask", &tags("vec"), &desc("vec"), || model_term(f, true, "f", &a_model),
+                    || cells(guarded(std::panic::AssertUnwindSafe(|| roll_call!(fi, xs, &ys, &a, Vec<f64>)))));
+                if (si + fi) % 2 == 0 {
+                    let dq: VecDeque<f64> = vh::wrapped_deque(&xs);
+                    let dy: VecDeque<f64> = vh::wrapped_deque(&ys);
+                    em.case("custom:mask", &tags("deque"), &desc("deque"), || model_term(f, false, "f", &a_model),
+                        || cells(guarded(std::panic::AssertUnwindSafe(|| roll_call!(fi, dq, &dy, &a, Vec<f64>)))));
+                }
+            }
+        }
+    }
     em.finish();
 }
